@@ -145,6 +145,13 @@ func stringEntries() []entry {
 			touch(json.Unmarshal(b, &u))
 			var holder struct{ U *urlutil.URL }
 			touch(json.Unmarshal([]byte(`{"U":`+string(b)+`}`), &holder))
+			// the method documents no precondition of its own: called directly it must still return
+			touch((&urlutil.URL{}).UnmarshalJSON([]byte(s)))
+			if len(s) > 0 {
+				touch((&urlutil.URL{}).UnmarshalJSON([]byte(s[:1])))
+				touch((&urlutil.URL{}).UnmarshalJSON([]byte(`"` + s)))
+			}
+			touch((&urlutil.URL{}).UnmarshalJSON(nil))
 		}},
 		{"urlutil.IsValidURLScheme", func(s, _ string) { _ = urlutil.IsValidGRPCURLScheme(s); _ = urlutil.IsValidHTTPURLScheme(s) }},
 		{"stringutil.ContainsFold", func(s, p string) {
